@@ -122,6 +122,19 @@ def replay(pid, path):
         return 1
     header, name, ops = split_opfile(path)
     work = os.path.join(CACHE, 'replay-%d' % os.getpid())
+    if any(o.startswith('t0 op init') for o in ops):
+        # two threads initialising concurrently (C14): implementation only, judged by the same rule as the check
+        _, impl, extras = run_both(header, [(name, ops)], work, impl_only=True)
+        shutil.rmtree(work, ignore_errors=True)
+        print('impl:')
+        print('\n'.join(impl.get(name, [])))
+        r = judge_concurrent_init(ops, impl.get(name))
+        for idx, msg in (r or []):
+            print('MONITOR: ' + msg)
+        if r is None or r:
+            print('VIOLATION property=%s replay=%s' % (pid, path))
+            return 1
+        return 0
     if 'http on' in header:
         # real-transport history (C06): re-run on the implementation; the judgement is in the file's first line
         _, impl, extras = run_both(header, [(name, ops)], work, impl_only=True)
@@ -1378,6 +1391,21 @@ def run_C15(pid, tier, seed, model_ok=True):
         for code in ('-1', '0', '1', '3'):
             if code not in seen:
                 fails.append(('codes', 0, 'C15: status %s was not delivered through the C API by the scenario that should produce it' % code, hs[0][1], ctx.header()))
+        # ownership: every string / result struct handed out through the C API must be released with the size it was
+        # allocated with (Rust's allocator contract; the system malloc does not notice).  The harness' tracking allocator
+        # checks every block allocated during a C API call against its release; error texts carry an interior NUL here,
+        # the one content a C string cannot represent.
+        own = [('own', [al.init] + al.seq(['u1', 'p', 'uperr', 'udl2', 'uh2', 'p', 'q', 's', 'fail', 'u1', 'p', 'upnone', 'u2', 'p']) + ['op update - err err', 'op nextpath']),
+               ('own_noinit', ['op update - err err', 'op nextpath', al.init, 'op update - err err', op_update(ctx, 1, dl='err'), 'op nextpath'])]
+        _, oimpl, oex = run_both(['track on', 'errnul on'] + ctx.header(), own, work + 't', impl_only=True)
+        nown = sum(len(v) for v in oimpl.values())
+        for x in oex:
+            if 'ALLOC-MISMATCH' in x:
+                fails.append(('own', 0, 'C15: a string or result handed out through the C API is released with another size than it was allocated with (invalid free): ' + x, own[0][1], ['track on', 'errnul on'] + ctx.header()))
+            elif 'PANIC-HOOK' in x or 'CRASH' in x:
+                fails.append(('own', 0, 'C15: ' + x[:300], own[0][1], ['track on', 'errnul on'] + ctx.header()))
+        if nown != sum(len([o for o in ops if o.startswith('op ')]) for _, ops in own):
+            extras.append('C15 ownership run incomplete: %d results' % nown)
         f = os.path.join(work, 'vg.ops')
         os.makedirs(work, exist_ok=True)
         write_opfile(f, ctx.header(), hs[:12])
@@ -1389,6 +1417,7 @@ def run_C15(pid, tier, seed, model_ok=True):
     finally:
         ctx.cleanup()
         shutil.rmtree(work, ignore_errors=True)
+        shutil.rmtree(work + 't', ignore_errors=True)
     nent = len(re.findall(r'^\s+\("', tbl, flags=re.M))
     return dict(evaluations=nent + len(syms) + 20, distinct=nent, samples=[{'exported_symbols': sorted(syms)[:6]}, {'table_rows': nent}],
                 divergences=divs, monitor_fail=fails,
@@ -1616,6 +1645,66 @@ C06_RULE = ('(a) every injected failure (check error, download error, junk downl
             'non-trivial = distinct (state, update-with-offer) for (a), distinct (state, server behaviour) for (b)')
 
 
+C14_RULE = ('second init (6 parameter variants) at every position of exhaustive depth-k histories, then requests; two threads initialising concurrently '
+            'with different parameters under every order of their config-mutex acquisitions (scheduler-controlled real threads): exactly one init succeeds and '
+            'its app id / channel / release are the ones later requests carry; non-trivial = distinct (state, rejected init)')
+
+
+def judge_concurrent_init(ops, tr):
+    """ops: [... 't0 op init A', 't1 op init B', 'order ..', 'op check - err', ...]; returns [(index into ops, message)] or None"""
+    k = next(i for i, o in enumerate(ops) if o.startswith('t0 '))
+    nlines = len([o for o in ops if o.startswith('op ')]) + 1
+    if tr is None or len(tr) != nlines:
+        return None
+    res = parse_line(tr[k])['out'].split('|')
+    req = [x for x in parse_line(tr[k + 1])['net'] if x.startswith('C:')]
+    want = {('true', 'false'): 'C:%s.%s.%s' % (hx('app-A'), hx('chA'), hx(REL1)), ('false', 'true'): 'C:%s.%s.%s' % (hx('app-B'), hx('chB'), hx(REL2))}.get(tuple(res))
+    out = []
+    if want is None:
+        out.append((len(ops) - 1, 'C14: two concurrent init calls returned %s: exactly one initialisation may succeed, the other must report failure' % res))
+    elif req != [want]:
+        out.append((len(ops) - 1, 'C14: init results %s, yet the configuration in use afterwards sends %s (expected %s)' % (res, req, want)))
+    return out
+
+
+def run_C14(pid, tier, seed, model_ok=True):
+    a = run_lifecycle(pid, tier, seed, build_C14, [monitors.mon_C14], trig_init2, C14_RULE, model_ok=model_ok)
+    # "only the FIRST successful initialisation in a process takes effect" when two threads race: the model's init is one
+    # critical section (C14_init_inert applied to whichever comes second); the implementation must not let both succeed
+    import itertools
+    ctx = Ctx(seed=seed)
+    work = os.path.join(CACHE, 'work-%s-ci-%d' % (pid, os.getpid()))
+    try:
+        al = gen.Alphabet(ctx)
+        header = ctx.header()
+        iA = op_init(rel=REL1, app='app-A', chan='chA')
+        iB = op_init(rel=REL2, app='app-B', chan='chB')
+        hs = []
+        orders = [''.join(o) for k in (2, 3, 4, 5) for o in itertools.product('01', repeat=k)]
+        for pk in (('empty', 'good1boot2') if tier == 'quick' else ('empty', 'good1', 'good1boot2', 'good1pend2')):
+            for oi, order in enumerate(orders):
+                pre = [al.init] + al.seq(PFX[pk]) + ['op kill']
+                hs.append(('ci_%s_%s' % (pk, order), pre + ['t0 ' + iA, 't1 ' + iB, 'order ' + ','.join(order), 'op check - err', 'op curnum', 'op nextnum']))
+        _, impl, ex = run_both(header, hs, work, impl_only=True)
+        a['extras'] += ex
+        nci = 0
+        for name, ops in hs:
+            r = judge_concurrent_init(ops, impl.get(name))
+            if r is None:
+                a['extras'].append('concurrent init: incomplete implementation trace for %s' % name)
+                continue
+            nci += 1
+            for idx, msg in r:
+                a['monitor_fail'].append((name, idx, msg, ops, header))
+        a['evaluations'] += nci
+        a['dist'] = dict(a.get('dist', {}), concurrent_init_schedules=nci)
+        a['traces'] = a.get('traces', 0) + len(impl)
+        return a
+    finally:
+        ctx.cleanup()
+        shutil.rmtree(work, ignore_errors=True)
+
+
 def mk(build, mons, trig, rule, **kw):
     d = dict(mons=mons, run=lambda pid, tier, seed, model_ok=True: run_lifecycle(pid, tier, seed, build, mons, trig, rule, model_ok=model_ok))
     d.update(kw)
@@ -1652,8 +1741,7 @@ PROPS = {
               assumptions=['RSA verification (ring) and base64 are oracles; signature table built with openssl']),
     'C08': mk(build_C08, [monitors.mon_C08, monitors.mon_C02], trig_relchange,
               'every depth-k old-release history x {upgrade, downgrade} x query/update tails; non-trivial = distinct (state, init) where the old release had patches, bans or queued events'),
-    'C14': mk(build_C14, [monitors.mon_C14], trig_init2,
-              'second init (6 parameter variants) at every position of exhaustive depth-k histories, then requests; non-trivial = distinct (state, rejected init)'),
+    'C14': dict(mons=[monitors.mon_C14], run=run_C14),
     'C20': mk(build_C20, [monitors.mon_C20], trig_request,
               'random YAML-channel/app/release strings (unicode included) x random per-call channels x interleaved calls, restarts and intruding second inits; non-trivial = distinct (state, call that sent a request)'),
     'C01': mk(build_C01, [monitors.mon_C01], trig_handout,
